@@ -101,7 +101,8 @@ def main():
             ('pool', 'C18T'): ['probe:pre-empted-inside-task', 'pool:lock-contention', 'pool:thread-switches', 'fault:thread-stalled-inside-state-writing-function',
                               'pool:traced-lines-in-state-writing-functions'],
             ('quilt', 'C19'): ['probe:operation-on-quilt-with-unresolved-axis-map', 'probe:quilt-drove-bus-at-its-max_persist-limit',
-                               'probe:direct-bus-access-between-quilt-operations', 'probe:served-from-memory-while-stale', 'fault:stale-read-raised'],
+                               'probe:direct-bus-access-between-quilt-operations', 'probe:served-from-memory-while-stale', 'fault:stale-read-raised',
+                               'probe:date-labels-selected-by-string'],
             ('pool', 'C19B'): ['batch:direct-equal', 'batch:export-checked', 'probe:out-of-order-completion'],
             ('alias', 'C01'): ['fault:adversary-write', 'fault:failing-call', 'fault:write-to-handed-array-refused', 'fault:mutation-attempt-refused'],
         }
